@@ -246,9 +246,12 @@ def parse_model_line(line):
 def run_cases(pid, gen, seed, tier, corpus_files, workdir, log, harness_timeout):
     os.makedirs(workdir, exist_ok=True)
     t0 = time.time()
-    rc, out = sh([os.path.join(BUILD, "harness"), "gen", gen, str(seed), tier, workdir] + corpus_files,
-                 cwd=workdir, timeout=harness_timeout,
-                 extra_env={"GOMEMLIMIT": "12GiB", "VERIF_WORK": workdir, "TZ": "UTC"})
+    try:
+        rc, out = sh([os.path.join(BUILD, "harness"), "gen", gen, str(seed), tier, workdir] + corpus_files,
+                     cwd=workdir, timeout=harness_timeout,
+                     extra_env={"GOMEMLIMIT": "12GiB", "VERIF_WORK": workdir, "TZ": "UTC"})
+    except subprocess.TimeoutExpired:
+        return None, "harness did not finish within %d s (the code under test hangs or is far slower than on the unchanged tree)" % harness_timeout
     log.append("harness gen %s seed=%s tier=%s rc=%d %.1fs" % (gen, seed, tier, rc, time.time() - t0))
     if rc != 0:
         return None, "harness failed rc=%d: %s" % (rc, out[-3000:])
